@@ -44,3 +44,10 @@ package clause
 //@   modifies region(builder)
 //@ iface Interface.Name(recv)
 //@   pure
+
+//@ func (Where).MergeClause
+//@   tags C09 C02
+//@   let o = clause.Expression
+//@   ensures stays-where: is(clause.Expression, Where)
+//@   ensures concatenates: is(o, Where) ==> len(clause.Expression.(Where).Exprs) == len(o.(Where).Exprs) + len(where.Exprs)
+//@   ensures first: !is(o, Where) ==> clause.Expression.(Where) == where
